@@ -36,7 +36,7 @@ Definition stmt_chain_wire : Prop :=
    within `rounds_of` rounds.
    REFUTED as stated: ChainFuel.chain_fuel_refuted (the timer-order oracle goes bad beyond the
    DelayQueue range, KOracle is an event, no round is quiet).  Kept for reference; it is split
-   into stmt_chain_poll_fuel (proved) and stmt_chain_rounds (open) below. *)
+   into stmt_chain_poll_fuel and stmt_chain_rounds below (both proved). *)
 Definition stmt_chain_fuel : Prop :=
   forall d ops, cfuel_ok d ops (fst (run d ops)) = true.
 
@@ -50,7 +50,8 @@ Definition stmt_chain_poll_fuel : Prop :=
 
 (* (B) as long as no timer-order oracle disagreed (observable: every server step prints its
    gauges), every SettleAll reaches a quiet round within `rounds_of` rounds.
-   OPEN (not proved); checked only: Chaincheck's cfuel_ok on every real trace.  By
+   PROVED: ChainRounds5.chain_rounds (a potential that no component poll increases and every
+   non-quiet, oracle-free round decreases).  By
    ChainFuel.chain_fuel_iff_rounds the conclusion is equivalent to
    cfuel_ok d ops (fst (run d ops)) = true. *)
 Definition stmt_chain_rounds : Prop :=
